@@ -38,7 +38,7 @@ LEVEL_NOTE = "Trusted: the reference model's error trees and message templates (
 
 
 def strategy(tier):
-    cfg = {"max_depth": 3 if tier == "quick" else 4, "leaf_validators": True}
+    cfg = {"max_depth": 3 if tier == "quick" else 4, "generics": True, "leaf_validators": True}
     return tdcase.td_cases(cfg, n_data=(4, 10), mix=(5, 20, 60, 15))
 
 
